@@ -10,6 +10,14 @@ same problem.  When driver.result.success is true the harness
   (ii)  re-evaluates every constraint element with NumPy from get_val and tests it against its own
         lower / upper / equals (tolerance expressed in the optimizer's scaled space),
   (iii) compares the design with the exact optimum from omv/ref/qp.py (KKT enumeration).
+
+History stratum (a third of the problems): the component gets a parameter p that is not a design variable,
+f = (1+q1 p) 1/2 z'Qz + (c+p c1)'z, g = (A+p B) z + b + p b1 (omv/ref/qphist.py), and the SAME Problem/driver is
+run 2-3 times; between the runs p is changed with set_val, bounds / equals / scaler,adder / ref,ref0 are
+changed with set_design_var_options / set_constraint_options / set_objective_options, the start point is moved
+or left where the last run ended, setup() is called again, or the component's data are replaced before a
+re-setup.  Every run is judged by (i)-(iii) for the values current at that run; the last run is also compared,
+argument by argument of scipy.optimize.minimize, with a fresh Problem declared directly with the final values.
 """
 import copy
 
@@ -26,8 +34,12 @@ TECHNIQUE = 'runtime monitoring: optimizer result vs exact KKT solution and NumP
 RULE = ('random strictly convex QPs (n<=4 design variables in 1-2 inputs, 1-4 constraint elements in 1-2 '
         'array constraints incl. indices+alias, per-element patterns lower/upper/both/hole/equality, scalar '
         'and array bounds, linear flag, units) x optimizers {SLSQP, COBYLA, trust-constr, COBYQA} x driver '
-        'scalings {none, scaler/adder, ref/ref0; scalar and array}; distinct = distinct (structure, optimizer, '
-        'scaling variant); non-trivial = driver reported success and the exact optimum exists')
+        'scalings {none, scaler/adder, ref/ref0; scalar and array}; a third of the problems as histories: the same '
+        'Problem/driver run 2-3 times with {parameter entering f, g and the coefficients of the linear '
+        'constraints, bounds/equals, scaling, start point (warm or set), re-setup, re-setup with new component '
+        'data} changed in between, then a fresh Problem with the final values; distinct = distinct (structure, '
+        'optimizer, scaling variant | stage, kinds of change); non-trivial = driver reported success and the '
+        'exact optimum exists')
 LEVEL_TEXT = ('every success reported on the sampled problems was checked elementwise against an independent '
               'exact solution; no statement about unsampled problem classes (n>4, nonlinear g, other optimizers)')
 ASSUMPTIONS = [
@@ -48,12 +60,25 @@ ASSUMPTIONS = [
     'designs are compared with tolerance 1e-4*(1+|z*|)*sqrt(cond Q) (optimizers run with tol 1e-10; '
     'observed errors are <= 1e-6)',
     'negative scalers on design variables / constraints are exercised in a separate stratum (keys neg-scaler:*)',
+    'history stratum: a change made with set_val / set_*_options after a run is in force at the next run_driver() '
+    '(documented in features/core_features/adding_desvars_cons_objs/modifying_desvars_cons_obj) and survives a '
+    'later setup() (pinned by test_system_set_solver_bounds_scaling_options); new bounds replace all old bounds, '
+    'naming one scaling pair clears the other',
+    'history stratum: a run started where the previous one ended is only required to be accepted by '
+    'trust-constr (keep_feasible) when that point satisfies the linear constraints and bounds with a relative '
+    'slack of 1e-9 in the optimizer space; a start inside that band is discarded',
+    'the last run of a history and the fresh Problem see the same optimizer-space problem from the same start: the '
+    'arguments of scipy.optimize.minimize must agree within 1e-9 relative',
 ]
 MIN_JUDGED = {'quick': 300, 'thorough': 3000}
 REQUIRED_COUNTERS = ['obs:success:SLSQP', 'obs:success:COBYLA', 'obs:success:trust-constr',
                      'obs:success:COBYQA', 'obs:feasible-elements', 'obs:optimum-compared',
                      'obs:active-at-optimum', 'obs:model-state-compared', 'obs:array-bounds-mixed-pattern',
-                     'obs:equality-success', 'obs:linear-success']
+                     'obs:equality-success', 'obs:linear-success', 'obs:minimize-bounds-compared',
+                     'obs:history-rerun-judged', 'obs:history-compared-with-fresh-problem',
+                     'obs:history-change:param', 'obs:history-change:cons-scaling', 'obs:history-change:cons-bounds',
+                     'obs:history-change:resetup', 'obs:history-start:warm',
+                     'obs:history-rerun-linear-jacobian-compared']
 SHARD_TIMEOUT = {'quick': 900, 'thorough': 3000}
 
 OPTS = ['SLSQP', 'COBYLA', 'trust-constr', 'COBYQA']
@@ -669,6 +694,8 @@ def run_and_judge(p, drv, spec, ref, ex, opt, variant, case, acc, fp, pre='', wa
         res = drv._scipy_optimize_result
         z_model = qpmodel.get_z(p, spec)
         linrep = mon.linear_constraint_report() if (has_lin and opt == 'trust-constr') else {}
+        if linrep and pre:
+            acc.count('obs:history-rerun-linear-jacobian-compared')
         bad = []
         blamed_scipy = False
         # ---- (i) model left at the returned design (compared in optimizer space)
@@ -850,7 +877,7 @@ def _bounds_kwargs(v, con):
     return {'lower': _b(v.get('lower')), 'upper': _b(v.get('upper'))}
 
 
-def apply_changes(p, comp, new, st, acc, viol):
+def apply_changes(p, comp, new, st, acc, case):
     """Make the changes of stage `st` on the live Problem (`new` = the spec after the changes)."""
     from omv.gen import qpmodel
     model = p.model
@@ -876,9 +903,10 @@ def apply_changes(p, comp, new, st, acc, viol):
             if len(kw) != 1:
                 raise
             # naming one member of a pair is what the two sibling methods accept and what the docstring offers
-            viol('set_objective_options-with-one-of-%s-raises:%s@%s' % (
+            # (mechanism independent of the history: key without the rerun-after prefix)
+            acc.viol('set_objective_options-with-one-of-%s-raises:%s@%s' % (
                 'scaler/adder' if ('scaler' in kw or 'adder' in kw) else 'ref/ref0', type(e).__name__, _where(e)),
-                '%s: %s' % (type(e).__name__, str(e)[:200]), new_case=False)
+                '%s: %s' % (type(e).__name__, str(e)[:200]), case, new_case=False)
             full = dict({'scaler': 1.0, 'adder': 0.0} if ('scaler' in kw or 'adder' in kw) else
                         {'ref': 1.0, 'ref0': 0.0}, **kw)
             model.set_objective_options('f', **full)       # same scaling, both members named
@@ -981,13 +1009,8 @@ def judge_history(case, acc):
             fp = fingerprint({'st': qpspec.structure(qphist.effective(new)), 'opt': opt, 'variant': 'hist',
                               'stage': k, 'kinds': st['kinds'], 'warm': st['warm']})
             z_prev = qpmodel.get_z(p, cur)
-            nviol = [0]
-
-            def viol(key, what, **kw):
-                nviol[0] += 1
-                acc.viol(pre + key, what, case, fp=fp, **kw)
             try:
-                apply_changes(p, comp, new, st, acc, viol)
+                apply_changes(p, comp, new, st, acc, case)
             except Exception as e:   # noqa
                 acc.viol(pre + 'change-between-runs-raises:%s@%s' % (type(e).__name__, _where(e)),
                          '%s: %s' % (type(e).__name__, str(e)[:240]), case, fp=fp)
